@@ -341,7 +341,7 @@ func historyCase(h []byte) Case {
 func TestExhaustiveHistories(t *testing.T) {
 	depth := 5
 	if harness.Thorough() {
-		depth = 7
+		depth = 8
 	}
 	st := subHist.Stat
 	var evals, nt int64
@@ -481,7 +481,7 @@ func genCall(t *rapid.T, drawing bool) Call {
 }
 
 func TestRandomHistories(t *testing.T) {
-	harness.Rapid(t, harness.N(6000, 16*20000), func(t *rapid.T) {
+	harness.Rapid(t, harness.N(6000, 16*80000), func(t *rapid.T) {
 		n := rapid.IntRange(1, 300).Draw(t, "len")
 		var c Case
 		a := newAutomaton()
